@@ -516,6 +516,73 @@ def emit_case(case, out):
     f = _EMIT.get(case["kind"])
     return f(case, out) if f else None
 
+# ------------------------------------------------------------------------------------------------ entry-point audit (run time, fail closed)
+# Every class defined in an anchored module and every persistence / copy method visible on it (own or inherited) must be driven by
+# a case kind or be listed in SKIPPED with a reason; a class, method or helper function that appears in the source and is not
+# classified here makes translate() raise, i.e. the check fails until it is classified.
+import re as _re
+_IO_RE = _re.compile(r"^(to_|from_|copy$|deepcopy$|__copy__$|__deepcopy__$)")
+_COPY4 = ["__copy__", "__deepcopy__", "copy", "deepcopy"]
+_PD = ["to_pandas", "from_pandas", "to_csv", "from_csv"]; _PDD = ["to_pandas_dict", "from_pandas_dict", "to_csv_dict", "from_csv_dict"]; _H5 = ["to_hdf5", "from_hdf5"]
+COVERED = {        # python class -> {method: case kind that calls it}
+    "DenseMatrix": {**{m: "copy" for m in _COPY4}, **{m: "h5" for m in _H5}},
+    "DenseTaxaMatrix": {**{m: "copy" for m in _COPY4}, **{m: "h5" for m in _H5}},
+    "DenseVariantMatrix": {**{m: "copy" for m in _COPY4}, **{m: "h5" for m in _H5}},
+    "DenseGenotypeMatrix": {**{m: "copy" for m in _COPY4}, **{m: "h5" for m in _H5}, "from_vcf": "vcf"},
+    "DensePhasedGenotypeMatrix": {**{m: "copy" for m in _COPY4}, **{m: "h5" for m in _H5}, "from_vcf": "vcf"},
+    "DenseBreedingValueMatrix": {**{m: "copy" for m in _COPY4}, **{m: "h5" for m in _H5}, **{m: "df" for m in _PD}},
+    "DenseCoancestryMatrix": {**{m: "copy (DenseMolecularCoancestryMatrix)" for m in _COPY4}, **{m: "h5 (DenseMolecularCoancestryMatrix)" for m in _H5}, **{m: "df (DenseMolecularCoancestryMatrix)" for m in _PD}},
+    "StandardGeneticMap": {**{m: "copy" for m in _COPY4}, **{m: "df" for m in _PD}},
+    "ExtendedGeneticMap": {**{m: "copy" for m in _COPY4}, **{m: "df" for m in _PD}, "to_egmap": "df via egmap", "from_egmap": "df via egmap / egmap_file"},
+    "DenseAdditiveLinearGenomicModel": {**{m: "copy" for m in _COPY4}, **{m: "h5" for m in _H5}, **{m: "df" for m in _PDD}},
+    "DenseAdditiveDominanceLinearGenomicModel": {**{m: "copy" for m in _COPY4}, **{m: "h5" for m in _H5}, **{m: "df" for m in _PDD}},
+    "DenseTwoWayDHAdditiveGeneticVarianceMatrix": {**{m: "copy" for m in _COPY4}, **{m: "h5" for m in _H5}, **{m: "df" for m in _PD}},
+    "DenseSquareTaxaTraitMatrix": {**{m: "copy" for m in _COPY4}, **{m: "h5" for m in _H5}, **{m: "df (predicate only)" for m in _PD}},
+    "G_E_Phenotyping": {**{m: "copy" for m in _COPY4}, **{m: "h5" for m in _H5}},
+    "Copyable": {m: "abstract interface; every implementation above is driven by the copy cases" for m in _COPY4},
+}
+SKIPPED = {
+    ("DenseBreedingValueMatrix", "from_numpy"): "constructor-like factory that standardises raw values: not a persistence route (property C15)",
+    ("DenseCoancestryMatrix", "from_gmat"): "abstract factory computing a coancestry matrix from genotypes (property C13)",
+    ("DenseTwoWayDHAdditiveGeneticVarianceMatrix", "from_gmod"): "computes variances from a genomic model (property C12), not a persistence route",
+    ("DenseTwoWayDHAdditiveGeneticVarianceMatrix", "from_algmod"): "computes variances from a genomic model (property C12), not a persistence route",
+}
+H5_FUNCS = {"h5py_File_write_dict": "wd, h5", "h5py_File_read_dict": "rd, h5 (genomic models)", "h5py_File_read_int": "rd, h5", "h5py_File_read_ndarray": "rd, h5",
+            "h5py_File_read_ndarray_int": "rd", "h5py_File_read_ndarray_int8": "rd, h5", "h5py_File_read_ndarray_utf8": "rd, h5", "h5py_File_read_utf8": "rd, h5",
+            "h5py_File_has_group": "rd", "h5py_File_is_readable": "rd", "h5py_File_is_writable": "rd"}
+UNCOVERED_ARGS = {  # parameters of covered methods that the generators leave at their defaults, with the reason
+    "column-name parameters (taxa_col, vrnt_chrgrp_col, female_col, ...) and sep/header/index of the CSV writers": "renaming columns consistently on both sides does not change which array goes where; the egmap pair (tab separator, other names) is the one non-default combination the library itself uses and it is covered",
+    "DenseCoancestryMatrix.to_pandas(taxa = <subset>)": "exports a sub-matrix by design: not a round trip",
+    "spline / spline_fill_value arrays of the genetic-map readers": "fill_value other than 'extrapolate' changes interpolation outside the map only (property C11)",
+}
+
+def audit_entry_points():
+    import importlib, inspect
+    with open(os.path.join(boot.VERIF, "properties.jsonl")) as f:
+        prop = [json.loads(l) for l in f if l.strip() and json.loads(l).get("id") == ID][0]
+    problems = []; seen = 0
+    for rel in prop["anchors"]["files"]:
+        m = importlib.import_module(rel[:-3].replace("/", "."))
+        for n, c in inspect.getmembers(m, inspect.isclass):
+            if c.__module__ != m.__name__: continue
+            if n not in COVERED: problems.append("class %s (%s) is not classified" % (n, rel)); continue
+            for x in sorted(dir(c)):
+                if _IO_RE.match(x) and callable(getattr(c, x)):
+                    seen += 1
+                    if x not in COVERED[n] and (n, x) not in SKIPPED: problems.append("%s.%s is neither covered nor skipped" % (n, x))
+            for x in COVERED[n]:
+                if not hasattr(c, x): problems.append("%s.%s is listed as covered but no longer exists" % (n, x))
+        for n, g in inspect.getmembers(m, inspect.isfunction):
+            if g.__module__ != m.__name__ or n.startswith("_") or n.startswith("check_"): continue
+            seen += 1
+            if n not in H5_FUNCS: problems.append("function %s (%s) is not classified" % (n, rel))
+    # the harness drives exactly the classes it says it drives
+    for k in CLS:
+        pc = CLS[k][1]
+        if pc not in COVERED and pc != "DenseMolecularCoancestryMatrix": problems.append("harness class %s not in COVERED" % pc)
+    if problems: raise RuntimeError("entry-point audit: " + "; ".join(problems[:8]))
+    return {"audit": "entry points", "classified": seen, "skipped": len(SKIPPED)}
+
 # ------------------------------------------------------------------------------------------------ translator hook
 def translate(repo, gen_dir):
     sys.path.insert(0, os.path.join(os.path.dirname(os.path.dirname(os.path.abspath(__file__))), "translate"))
@@ -528,7 +595,7 @@ def translate(repo, gen_dir):
     kern = c16_kernel.translate(repo, gen_dir, [(k, klass(k)) for k in H5_CLASSES])
     return [{"table": "Gen/C16_Fields.v", "classes": len(recs),
              "written_keys": sum(len(r["written"]) for r in recs), "copied_attrs": sum(len(r["cp_ctor"]) + len(r["cp_post"]) for r in recs)},
-            kern]
+            kern, audit_entry_points()]
 
 # ------------------------------------------------------------------------------------------------ generators
 LABELS = ["a", "B7", "ä", "ß", "日本", "😀x", "na/ïve", "", " sp ace", "Ω", "line-1", "Zz", "é", "x_y", "0", "t1"]
@@ -678,13 +745,18 @@ def gen_cases(rng, tier):
     N = 30 if tier == "quick" else 250
     for key in H5_CLASSES:
         for _ in range(N): cases.append(gen_h5(rng, key))
+    # more taxa / variants than an int8 (or uint8) index can count, grouped and ungrouped
+    for _ in range(1 if tier == "quick" else 8):
+        for key, dims in (("TM", (rng.randint(130, 300), 2, 1)), ("GM", (rng.randint(130, 260), 3, 1)), ("VrM", (2, rng.randint(260, 400), 1))):
+            cases.append(gen_h5(rng, key, dims_in=dims))
     M = 20 if tier == "quick" else 150
     for key in CLS:
         for i in range(M): cases.append(gen_copy(rng, key, i))
     for i in range(64 if tier == "quick" else 600): cases.append(gen_vcf(rng, ties=(i % 8 == 7)))
-    for key in ["BV", "CM", "VM", "SGMAP", "EGMAP", "ALGM", "ADLGM"]:
-        for i in range(30 if tier == "quick" else 250): cases.append(gen_df(rng, key))
+    for key in ["BV", "CM", "VM", "SGMAP", "EGMAP", "ALGM", "ADLGM", "STT"]:
+        for i in range((30 if key != "STT" else 16) if tier == "quick" else 250): cases.append(gen_df(rng, key))
     for i in range(60 if tier == "quick" else 600): cases.append(gen_wd(rng))
+    for i in range(40 if tier == "quick" else 400): cases.append(gen_rd(rng))
     return cases
 
 # ------------------------------------------------------------------------------------------------ predicate
@@ -738,7 +810,7 @@ WRITTEN = {}
 
 def pred(case, out):
     if "exc" in out: return ["harness/implementation raised %s: %s" % (out["exc"], out.get("msg"))]
-    bad = {"h5": pred_h5, "copy": pred_copy, "vcf": pred_vcf, "df": pred_df, "wd": pred_wd}[case["kind"]](case, out)
+    bad = {"h5": pred_h5, "copy": pred_copy, "vcf": pred_vcf, "df": pred_df, "wd": pred_wd, "rd": pred_rd}[case["kind"]](case, out)
     seen = []
     for b in bad:
         if b not in seen: seen.append(b)
@@ -767,7 +839,7 @@ def classify(case, out, clauses):
         if "bv-location-scale" in tags and key != "BV": return None
         if "vmat-sorted" in tags:
             srt = lambda v: v is None or (v["d"] == sorted(v["d"]) and len(set(v["d"])) == len(v["d"]))
-            if key != "VM" or (srt(o.get("taxa")) and srt(o.get("trait"))): return None
+            if key not in ("VM", "STT") or (srt(o.get("taxa")) and srt(o.get("trait"))): return None
         if "gmap-cM-rounding" in tags:
             if key not in ("SGMAP", "EGMAP") or case["opts"].get("units") not in ("cM", "centiMorgans"): return None
             if all(0.01 * (100.0 * x) == x for x in _fl(o["vrnt_genpos"])): return None
@@ -793,6 +865,9 @@ def describe(case, out):
     if case["kind"] == "h5":
         d["writes"] = len(case["objs"]); d["group"] = "root" if case["group"] is None else ("non-ascii" if any(ord(c) > 127 for c in case["group"]) else "nested" if "/" in case["group"].strip("/") else "plain")
         d["all_overwrite"] = all(case["overwrite"])
+        d["routes"] = ",".join(sorted(set(out.get("routes", ["new"])))) if isinstance(out, dict) else "?"
+    if case["kind"] == "copy": d["how"] = case["how"]; d["src"] = case.get("src", "new")
+    if case["kind"] == "df": d["via"] = case["via"]; d["defaults"] = bool(case.get("opts", {}).get("defaults"))
     return d
 
 # ------------------------------------------------------------------------------------------------ copies
@@ -1053,6 +1128,10 @@ def df_options(key, o, case):
         kw = dict(female_col="female", female_grp_col="female_grp" if gc else None, male_col="male", male_grp_col="male_grp" if gc else None,
                   trait_col="trait", variance_col="variance")
         return kw, dict(kw)
+    if key == "STT":
+        gc = o.taxa_grp is not None
+        kw = dict(taxa_colnames=True, taxa_grp_colnames=gc, trait_colnames=True, value_colname="value")
+        return kw, dict(kw, ntaxaaxes=2)
     if key in ("SGMAP", "EGMAP"):
         if opts.get("defaults"): return {}, {}                       # default arguments on both sides
         u = opts.get("units", "cM")
@@ -1080,6 +1159,11 @@ def egmap_text(o):
     return "\n".join(rows) + "\n"
 
 def run_df(case):
+    import contextlib
+    with contextlib.redirect_stdout(io.StringIO()):          # DenseSquareTaxaTraitMatrix.to_pandas / from_pandas print debugging output
+        return _run_df(case)
+
+def _run_df(case):
     import pandas
     key = case["cls"]; cls = klass(key)
     o = build(key, case["obj"])
@@ -1139,7 +1223,7 @@ def g_labels(rng, n, csv, distinct=True, sort=None):
     return {"t": "str", "d": out}
 
 def gen_df(rng, key=None, via=None):
-    key = key or rng.choice(["BV", "CM", "VM", "SGMAP", "EGMAP", "ALGM", "ADLGM"])
+    key = key or rng.choice(["BV", "CM", "VM", "STT", "SGMAP", "EGMAP", "ALGM", "ADLGM"])
     via = via or rng.choice(["pandas", "pandas", "csv"])
     csv = via == "csv"
     n, t = rng.randint(1, 4), rng.randint(1, 3)
@@ -1182,7 +1266,7 @@ def gen_df(rng, key=None, via=None):
     elif key == "CM":
         o["mat"] = fl([n, n]); o["taxa"] = opt(rng, mode, lambda: g_labels(rng, n, csv)); o["taxa_grp"] = opt(rng, mode, lambda: g_int(rng, [n], 0, 3))
         opts["grp_col_anyway"] = rng.random() < 0.3
-    elif key == "VM":
+    elif key in ("VM", "STT"):
         srt = rng.random() < 0.6
         o["mat"] = fl([n, n, t]); o["taxa"] = opt(rng, mode, lambda: g_labels(rng, n, csv, sort=srt)); o["taxa_grp"] = opt(rng, mode, lambda: g_int(rng, [n], 0, 3))
         o["trait"] = opt(rng, mode, lambda: g_labels(rng, t, csv, sort=srt))
@@ -1204,7 +1288,7 @@ def _ulps(a, b, k=4):
 def _long_float(x):
     """needs more than 15 significant digits to print"""
     return x == x and abs(x) != float("inf") and float("%.15g" % x) != x
-LABEL_FIELDS = {"BV": ["taxa", "trait"], "CM": ["taxa"], "VM": ["taxa", "trait"], "ALGM": ["trait"], "ADLGM": ["trait"], "SGMAP": [], "EGMAP": []}
+LABEL_FIELDS = {"BV": ["taxa", "trait"], "CM": ["taxa"], "VM": ["taxa", "trait"], "STT": ["taxa", "trait"], "ALGM": ["trait"], "ADLGM": ["trait"], "SGMAP": [], "EGMAP": []}
 
 def pred_df(case, out):
     key = case["cls"]; o = out["orig"]; b = out["back"]
@@ -1213,8 +1297,8 @@ def pred_df(case, out):
     diff = oeq(o, b)
     absent = [f for f in LABEL_FIELDS[key] if o[f] is None]
     # (1) labels that were present come back exactly; absent ones may only come back as None
-    for f in LABEL_FIELDS[key] + (["taxa_grp"] if "taxa_grp" in o and key != "VM" else []):
-        if f in diff and f not in absent and not (key == "VM"):
+    for f in LABEL_FIELDS[key] + (["taxa_grp"] if "taxa_grp" in o and key not in ("VM", "STT") else []):
+        if f in diff and f not in absent and not (key in ("VM", "STT")):
             bad.append("label array %s not reproduced" % f)
     synth = [f for f in absent if f in diff]
     if synth: bad.append("[absent-labels] absent %s read back as synthesised labels" % ",".join(synth))
@@ -1227,12 +1311,13 @@ def pred_df(case, out):
         if any(f in rest for f in ("mat", "location", "scale")):
             bad.append("[bv-location-scale] location/scale/mat not reproduced: from_pandas ignores location and scale and re-standardises (%s)" % ",".join(f for f in rest if f in ("mat", "location", "scale")))
         rest = [f for f in rest if f not in ("mat", "location", "scale")]
-    elif key == "VM":
+    elif key in ("VM", "STT"):
         def entries(v, taxa, trait):
             n = v["mat"]["sh"][0]; t = v["mat"]["sh"][2]; d = v["mat"]["d"]
             return {(taxa[i], taxa[j], trait[k]): d[(i * n + j) * t + k] for i in range(n) for j in range(n) for k in range(t)}
         n = o["mat"]["sh"][0]; t = o["mat"]["sh"][2]
         zt = math.ceil(math.log10(n)) + 1; zr = math.ceil(math.log10(t)) + 1
+        if key == "STT": zt, zr = len(str(n)), len(str(t))          # DenseSquareTaxaTraitMatrix synthesises "Taxon" + str(i).zfill(len(str(n)))
         ot = o["taxa"]["d"] if o["taxa"] is not None else ["Taxon" + str(i).zfill(zt) for i in range(n)]
         otr = o["trait"]["d"] if o["trait"] is not None else ["Trait" + str(i).zfill(zr) for i in range(t)]
         if b["taxa"] is None or b["trait"] is None or b["mat"]["sh"] != [n, n, t]:
@@ -1390,6 +1475,135 @@ def pred_wd(case, out):
         if extra:
             nested = all("/" in k for k in extra)
             bad.append(("[wd-stale-nested] " if nested else "") + "step %d: stale datasets below keys of the dictionary: %s" % (i, ",".join(extra)))
+    return bad
+
+# ------------------------------------------------------------------------------------------------ the typed readers, called directly
+# (the persistable classes only reach part of them: no class stores a matrix that h5py_File_read_ndarray_int8 has to convert, none uses
+#  h5py_File_read_ndarray_int).  The file is written with h5py itself, independently of pybrops' writer.
+RD_FUNCS = {"RNd": "h5py_File_read_ndarray", "RNdUtf8": "h5py_File_read_ndarray_utf8", "RInt": "h5py_File_read_int", "RNdInt8": "h5py_File_read_ndarray_int8",
+            "RNdInt": "h5py_File_read_ndarray_int", "RUtf8": "h5py_File_read_utf8"}
+def _rd_domain(r, v):
+    """is reader r defined on a dataset written from value v? (the domain on which the model is claimed; elsewhere only the predicate looks)"""
+    t = v["t"]
+    if r == "RNd": return True
+    if r == "RNdUtf8": return t == "str"
+    if r == "RInt": return t in ("i8", "i32", "i64", "b") and v["sh"] == []
+    if r in ("RNdInt8", "RNdInt"): return t in ("i8", "i32", "i64", "b")
+    if r == "RUtf8": return t in ("s", "by")
+    return False
+
+def gen_rd(rng):
+    ds = {}
+    for i in range(rng.randint(2, 5)):
+        r = rng.random(); nm = rng.choice(["a", "m", "ü", "x1", "lab", "p/q"]) + str(i)
+        if r < 0.45:
+            t = rng.choice(["i8", "i32", "i64", "i64", "b"]); sh = rng.choice([[], [rng.randint(1, 3)], [2, rng.randint(1, 2)]])
+            lo, hi = {"i8": (-128, 127), "i32": (-70000, 70000), "i64": (-10 ** 12, 10 ** 12), "b": (0, 1)}[t]
+            v = g_int(rng, sh, lo, hi, t)
+            if t != "b" and rng.random() < 0.5: v["d"] = [rng.choice([0, 1, -1, 127, 128, 200, 255, 256, -129, -130, 1000, lo, hi]) for _ in v["d"]]; v["d"] = [min(max(x, lo), hi) for x in v["d"]]
+        elif r < 0.6: v = g_f64(rng, rng.choice([[], [2], [2, 2]]), special=False)
+        elif r < 0.8: v = g_str(rng, rng.randint(1, 3))
+        elif r < 0.92: v = {"t": "s", "v": rng.choice(["x", "é/ü", "", "日本", "rrBLUP"])}
+        else: v = {"t": "by", "v": rng.choice([[114, 97, 119], [255, 1], [195, 164], []])}
+        ds[nm] = v
+    members = {}
+    for k in rng.sample(["x", "y", "ζ", "kind", "n"], rng.randint(0, 4)):
+        members[k] = rng.choice([lambda: g_f64(rng, [rng.randint(1, 2)], special=False), lambda: {"t": "int", "v": rng.randint(-5, 99)}, lambda: {"t": "float", "v": fhex(rng.choice(FLOATS[:9]))},
+                                 lambda: {"t": "s", "v": rng.choice(["x", "é", "ridge", ""])}, lambda: {"t": "by", "v": rng.choice([[114, 97, 119], [255, 1]])},
+                                 lambda: g_str(rng, 2), lambda: g_int(rng, [], 0, 9, rng.choice(["i8", "i64"]))])()
+    return {"kind": "rd", "datasets": ds, "members": members, "group": rng.choice(["hp", "g/hp", "ü"])}
+
+def run_rd(case):
+    import h5py
+    import pybrops.core.util.h5py as U
+    fn = _tmp(case, ".h5")
+    if os.path.exists(fn): os.remove(fn)
+    out = {"reads": {}, "has": {}}
+    try:
+        with h5py.File(fn, "w") as h5:
+            for nm, v in case["datasets"].items(): h5.create_dataset(nm, data=mk(v))
+            g = h5.require_group(case["group"])
+            for k, v in case["members"].items(): g.create_dataset(k, data=mk(v))
+        out["dump"] = h5dump(fn)
+        with h5py.File(fn, "r") as h5:
+            for nm in case["datasets"]:
+                for r, f in RD_FUNCS.items():
+                    try: out["reads"]["%s|%s" % (nm, r)] = ob(getattr(U, f)(h5, nm))
+                    except Exception as e: out["reads"]["%s|%s" % (nm, r)] = _exc(e)
+            try: out["dict"] = ob(U.h5py_File_read_dict(h5, case["group"]))
+            except Exception as e: out["dict"] = _exc(e)
+            for nm in list(case["datasets"]) + [case["group"], "absent", case["group"] + "/absent"]:
+                out["has"][nm] = bool(U.h5py_File_has_group(h5, nm))
+            out["readable"] = bool(U.h5py_File_is_readable(h5)); out["writable"] = bool(U.h5py_File_is_writable(h5))
+        with h5py.File(fn, "a") as h5: out["writable_a"] = bool(U.h5py_File_is_writable(h5))
+    finally:
+        if os.path.exists(fn): os.remove(fn)
+    return out
+_RUN["rd"] = run_rd
+
+def _enc_json(v):
+    """JSON value -> the dump form of the dataset h5py makes of it (as h5dump reports it)"""
+    t = v["t"]
+    if t in NUMT: return {k: x for k, x in ob(mk(v)).items() if k != "sc"}
+    if t == "str": return {"t": "bytes", "d": [list(x.encode("utf-8")) for x in v["d"]]}
+    if t == "s": return {"t": "by", "v": list(v["v"].encode("utf-8"))}
+    if t == "by": return {"t": "bya", "v": list(v["v"])}
+    if t == "int": return {"t": "i64", "sh": [], "d": [v["v"]]}
+    if t == "float": return {"t": "f64", "sh": [], "d": [fhex(float.fromhex(v["v"]))]}
+    raise ValueError(t)
+
+def emit_rd(case, out):
+    parts = []
+    for nm, v in case["datasets"].items():
+        d = e_dset(_enc_json(v))
+        for r in RD_FUNCS:
+            if not _rd_domain(r, v): continue
+            o = out["reads"]["%s|%s" % (nm, r)]
+            try: res = "None" if "exc" in o else "(Some %s)" % e_sval(o)
+            except ValueError: return "false"
+            parts.append("agree_rd %s %s %s" % (r, d, res))
+    o = out["dict"]
+    if "exc" in o: res = "None"
+    else:
+        try: res = "(Some %s)" % E.lst(sorted(o["v"].items()), lambda kv: "(%s, %s)" % (zstr(kv[0]), E.opt(kv[1], e_sval)))
+        except ValueError: return "false"
+    parts.append("agree_rdict %s %s %s" % (e_dump(out["dump"]), zstr(case["group"]), res))
+    return "forallb (fun b : bool => b) %s" % E.lst(parts, str)
+_EMIT["rd"] = emit_rd
+
+def _wrap8(x): return (x + 128) % 256 - 128
+def pred_rd(case, out):
+    """every reader returns the stored value in the type its name promises"""
+    bad = []
+    for nm, v in case["datasets"].items():
+        t = v["t"]; get = lambda r: out["reads"]["%s|%s" % (nm, r)]
+        def want(r, exp):
+            o = get(r)
+            if "exc" in o: bad.append("%s(%s) raised %s: %s" % (RD_FUNCS[r], nm, o["exc"], o["msg"][:80]))
+            elif not ({k: x for k, x in o.items() if k != "sc"} == exp): bad.append("%s(%s) returned %s, stored %s" % (RD_FUNCS[r], nm, json.dumps(o)[:90], json.dumps(v)[:90]))
+        want("RNd", {"str": lambda: _enc_json(v), "s": lambda: {"t": "by", "v": list(v["v"].encode("utf-8"))}, "by": lambda: {"t": "by", "v": list(v["v"])}}.get(t, lambda: _enc_json(v))())
+        if t == "str": want("RNdUtf8", {"t": "str", "d": v["d"]})
+        if t in ("i8", "i32", "i64", "b"):
+            want("RNdInt", {"t": "i64", "sh": v["sh"], "d": [int(x) for x in v["d"]]})
+            want("RNdInt8", {"t": "i8", "sh": v["sh"], "d": [_wrap8(int(x)) for x in v["d"]]})
+            if v["sh"] == []: want("RInt", {"t": "int", "v": int(v["d"][0])})
+        if t == "s": want("RUtf8", {"t": "s", "v": v["v"]})
+        if t == "by":
+            try: exp = {"t": "s", "v": bytes(v["v"]).decode("utf-8")}
+            except UnicodeDecodeError: exp = None
+            if exp is not None: want("RUtf8", exp)
+            elif "exc" not in get("RUtf8"): bad.append("h5py_File_read_utf8(%s) decoded invalid UTF-8" % nm)
+    o = out["dict"]
+    if "exc" in o: bad.append("h5py_File_read_dict raised %s: %s" % (o["exc"], o["msg"][:80]))
+    else:
+        wantd = {}
+        for k, v in case["members"].items():
+            wantd[k] = v if v["t"] in ("s", "by") else ({"t": "bytes", "d": [list(x.encode("utf-8")) for x in v["d"]]} if v["t"] == "str" else _enc_json(v))
+        got = {k: ({kk: x for kk, x in vv.items() if kk != "sc"} if isinstance(vv, dict) else vv) for k, vv in o["v"].items()}
+        if got != wantd: bad.append("h5py_File_read_dict returned %s, stored %s" % (json.dumps(got)[:120], json.dumps(wantd)[:120]))
+    for nm, h in out["has"].items():
+        if h != (not nm.endswith("absent")): bad.append("h5py_File_has_group(%s) = %s" % (nm, h))
+    if not (out["readable"] and not out["writable"] and out["writable_a"]): bad.append("h5py_File_is_readable/is_writable wrong for modes r / a")
     return bad
 
 # ------------------------------------------------------------------------------------------------ shrinking
